@@ -270,6 +270,9 @@ func (v *V) readVar(st *State, o *types.Var) Val {
 	name := o.Name()
 	if o.Pkg() != nil && o.Parent() == o.Pkg().Scope() {
 		name = o.Pkg().Name() + "." + name
+		if gv, ok := v.globalValue(st, o); ok {
+			return gv
+		}
 		v.note("reads package-level variable " + name + " (unconstrained symbolic value)")
 	}
 	val := v.freshVal(st, name, o.Type())
